@@ -1,18 +1,29 @@
 #!/usr/bin/env python3
 """seedrun.py <seed-id> <property> [tier]: applies /verif/seeded/<seed-id>/patch.diff to /repo, runs the check of <property>,
-reverts /repo straight afterwards and records the outcome in the seed's meta.json."""
+reverts /repo straight afterwards and records the outcome in the seed's meta.json.
+With SEEDRUN_COPY=1 the change is applied to a private copy of /repo instead (VERIF_REPO)."""
 import json, os, subprocess, sys, time
 sid, prop = sys.argv[1], sys.argv[2]
 tier = sys.argv[3] if len(sys.argv) > 3 else "quick"
 d = os.path.join("/verif/seeded", sid)
-assert subprocess.run("git -C /repo status --porcelain", shell=True, stdout=subprocess.PIPE).stdout.strip() == b"", "/repo not clean"
-subprocess.run("git -C /repo apply --whitespace=nowarn %s/patch.diff" % d, shell=True, check=True)
+copy = os.environ.get("SEEDRUN_COPY")
 t0 = time.time()
-try:
-    p = subprocess.run(["/verif/vcheck", prop, tier], cwd="/verif", stdout=subprocess.PIPE, stderr=subprocess.STDOUT)
-finally:
-    subprocess.run("git -C /repo checkout -- . && git -C /repo clean -fdq", shell=True, check=True)
-    subprocess.run("git -C /verif checkout -- evidence 2>/dev/null", shell=True)
+if copy:
+    # a private copy of /repo's working tree (used while other checks run against /repo itself)
+    work = "/root/scratch/seed-" + sid
+    subprocess.run("mkdir -p /root/scratch && rsync -a --delete --exclude .git /repo/ %s/ && cd %s && patch -p1 -s < %s/patch.diff" % (work, work, d), shell=True, check=True)
+    try:
+        p = subprocess.run(["/verif/vcheck", prop, tier], cwd="/verif", stdout=subprocess.PIPE, stderr=subprocess.STDOUT, env=dict(os.environ, VERIF_REPO=work))
+    finally:
+        subprocess.run("rm -rf " + work, shell=True)
+else:
+    assert subprocess.run("git -C /repo status --porcelain", shell=True, stdout=subprocess.PIPE).stdout.strip() == b"", "/repo not clean"
+    subprocess.run("git -C /repo apply --whitespace=nowarn %s/patch.diff" % d, shell=True, check=True)
+    try:
+        p = subprocess.run(["/verif/vcheck", prop, tier], cwd="/verif", stdout=subprocess.PIPE, stderr=subprocess.STDOUT)
+    finally:
+        subprocess.run("git -C /repo checkout -- . && git -C /repo clean -fdq", shell=True, check=True)
+        subprocess.run("git -C /verif checkout -- evidence 2>/dev/null", shell=True)
 out = p.stdout.decode("utf-8", "replace")
 viol = [l for l in out.splitlines() if l.startswith("VIOLATION")]
 first = ""
@@ -30,4 +41,5 @@ meta = json.load(open(mp))
 meta["checks_run"] = [r for r in meta.get("checks_run", []) if not (r["check"] == prop and r["tier"] == tier)] + [res]
 json.dump(meta, open(mp, "w"), indent=1)
 # replays produced by a seeded run are not findings on the real tree
-subprocess.run("git -C /verif clean -fdq replays", shell=True)
+if not copy:
+    subprocess.run("git -C /verif clean -fdq replays", shell=True)
